@@ -186,6 +186,7 @@ func NewTableTemplate() *template.Template {
 		template.FuncMap{
 			"PrintVal":           printVal,
 			"FieldName":          FieldName,
+			"EnumValueName":      enumValueName,
 			"FieldType":          FieldType,
 			"FieldTypeWithEnums": FieldTypeWithEnums,
 			"OvsdbTag":           Tag,
@@ -221,7 +222,7 @@ var (
 {{ range  index . "Enums" }}
 {{- $e := . }}
 {{- range .Sets }}
-{{ $e.Alias }}{{ FieldName . }} {{ $e.Alias }} = {{ PrintVal . $e.Type }}
+{{ $e.Alias }}{{ EnumValueName . }} {{ $e.Alias }} = {{ PrintVal . $e.Type }}
 {{- end }}
 {{- end }}
 )
@@ -388,7 +389,7 @@ func FieldEnum(tableName, columnName string, column *ovsdb.ColumnSchema) *Enum {
 		return nil
 	}
 	return &Enum{
-		Type:  column.TypeObj.Key.Type,
+		Type:  AtomicType(column.TypeObj.Key.Type),
 		Alias: enumName(tableName, columnName),
 		Sets:  column.TypeObj.Key.Enum,
 	}
@@ -485,9 +486,24 @@ func expandInitilaisms(s string) string {
 	return s
 }
 
+// enumValueName returns the suffix that names an enum value: the camel-cased
+// value for strings, and a spelling that is a valid identifier for numbers and
+// booleans (JSON numbers are float64).
+func enumValueName(v interface{}) string {
+	if s, ok := v.(string); ok {
+		return FieldName(s)
+	}
+	s := fmt.Sprint(v)
+	s = strings.NewReplacer(".", "_", "-", "Minus", "+", "").Replace(s)
+	return cases.Title(language.Und, cases.NoLower).String(s)
+}
+
 func printVal(v interface{}, t string) string {
 	switch t {
 	case "int":
+		if f, ok := v.(float64); ok {
+			return fmt.Sprintf(`%d`, int(f))
+		}
 		return fmt.Sprintf(`%d`, v)
 	case "float64":
 		return fmt.Sprintf(`%f`, v)
